@@ -1143,7 +1143,6 @@ func sameObject(a, b ssa.Value) bool {
 	return false
 }
 
-
 // c14Trace: the in-flight counter along the proxy's traces: 1 on the backend an attempt is being made on, 0 on every
 // backend when the request is over, and one recorded failure per failed attempt on a backend with fail_timeout.
 func c14Trace(h H) {
